@@ -146,6 +146,37 @@ CLAIMS.update({
          'in the anonymous-name harness.', '5 C41'),
 })
 
+CLAIMS.update({
+ 'C24': ('proof',
+         'Second and third sentences of the statement. Real class_diff clause of type_suppression::suppresses_diff (BOUNDED: <= 2 '
+         'inserted members, <= 2 ranges, every boundary value / evaluation failure / offset): with a has_data_member_inserted_* '
+         'constraint the clause never accepts a diff that removes a data member, shrinks the type, or inserts a member outside all '
+         'ranges. Real insertion_range::eval_boundary (any number of data members, loop contract): integer boundaries evaluate to the '
+         'integer, offset_of/offset_after need exactly one argument (no out-of-range argument access), boundary_value_is_end(v) <=> '
+         'v == UINT64_MAX. Real regex::compile: a pattern regcomp rejects yields no regex object.',
+         'The first sentence (all constraints conjunctively, over the IR) is not decided. The class_diff clause is a bounded '
+         'result; eval_boundary/compile are proofs over stub classes. That callers test the null regex before matching is not decided.',
+         '5 C24'),
+ 'C25': ('proof',
+         'INI value parser (class read_context of src/abg-ini.cc), input of ANY length and content: read_string, '
+         'read_list_property_value, read_tuple_property_value (inductive loop contracts with a termination measure), '
+         'read_property_value, read_property and the loop-free character layer (peek/get/put_back/good/eof/handle_escape/'
+         'read_next_char), each against contracts of the member functions it calls: no ABG_ASSERT fails, abort() is unreachable, no '
+         'null pointer is dereferenced, the put-back buffer is never popped empty, every loop terminates, and a simple property '
+         'always carries a value object (which the section readers dereference). eval_boundary: no out-of-range argument access.',
+         'Scoped to the INI value parser and eval_boundary. skip_*/read_*_name/read_section*/read_function_call_expr are callee '
+         'contracts (not discharged); the section readers of abg-suppression.cc, whitelist reading and the evaluation of '
+         'suppressions against binaries are not decided (see DESIGN.md for defects seen there).', '5 C25'),
+ 'C27': ('proof',
+         'Real operator<<(ostream&, const regex::escape&) (names of any length, inductive loop contract over a byte-level stream '
+         'automaton and an arbitrary watched input position): every character is emitted once, in order; every ERE special '
+         'character (POSIX XBD 9.4.3) is preceded by a backslash and no ordinary character is. Real generate_from_strings (any '
+         'number of names, loop contract over a token-level automaton): the result is ^(e1|e2|...|ek)$ with every name emitted '
+         'once in vector order, and the never-matching pattern for an empty list.',
+         'ERE semantics of glibc regcomp/regexec are assumed. gen_suppr_spec_from_kernel_abi_whitelists and the keep/drop filters '
+         'of abg-corpus-priv.h are not decided.', '5 C27'),
+})
+
 NA = {
  'C01': 'rests on reflexivity of ~40 mutually recursive equals() overloads, canonicalisation and DIE de-duplication over arbitrary type graphs (abg-ir.cc, abg-dwarf-reader.cc); outside the C++ subset CBMC 6.11 parses and not expressible as a contract on any reachable function',
  'C02': 'writer/reader pair over the whole IR and libxml2 trees; outside front-end reach (attribute escaping is claimed under C04)',
